@@ -73,10 +73,10 @@ func runPropertyRaw(prop, tier string, forBaseline bool) *Report {
 	for _, t := range ts {
 		results = append(results, verifyTarget(t))
 	}
-	timeout := 30
+	timeout := 60
 	agree := false
 	if tier == "thorough" {
-		timeout = 90
+		timeout = 120
 		agree = true
 	}
 	var all []*Obligation
